@@ -70,7 +70,7 @@ COVER = {
 }
 
 # direction A / B volumes: (walks, walk depth, random runs, crash runs)
-VOL = {"quick": (150, 90, 250, 150), "thorough": (3000, 140, 6000, 4000)}
+VOL = {"quick": (150, 90, 250, 400), "thorough": (3000, 140, 6000, 100000)}
 
 # op mix of the random runs, per property
 WEIGHTS = {
@@ -164,8 +164,10 @@ def run(pid, tier):
         # ---- 4. direction B: schedules chosen on the code side
         for i in range(nr):
             runs.append(P.random_run(rng, "r%d" % i, weights=WEIGHTS.get(pid)))
+        crash_total, crash_complete = 0, None
         if pid == "C06":
-            runs += crash_runs(rng, nc)
+            cr, crash_total, crash_complete = crash_runs(drv, sc, rng, nc)
+            runs += cr
         elif pid in ("C05", "C16", "C04"):
             for i in range(nc // 5):
                 runs.append(P.random_run(rng, "c%d" % i, crash=True, weights=WEIGHTS.get(pid)))
@@ -260,6 +262,7 @@ def run(pid, tier):
             transition_covers=cover_info,
             drift_examples=[d[1] for d in drift[:3]],
             code_driven_runs=len(outs) - nwalks, crash_runs=len([r for r in runs if r.get("crash")]),
+            crash_points_total=crash_total, crash_enumeration_complete=crash_complete,
             events_validated=vstats["events"], trace_states=vstats["states"],
             model_actions_replayed=dict(actcount),
             invariants=P.PROP_INVS[pid], other_invariant_violations=len(others),
@@ -278,40 +281,59 @@ def run(pid, tier):
         shutil.rmtree(sc, ignore_errors=True)
 
 
-def crash_runs(rng, n):
-    """Crash enumeration: for each call kind x initial stack, kill the handle before its k-th
-    filesystem call for every k, then a second handle continues (Add + compaction), then a fresh open."""
+def crash_scenarios():
+    """call kinds x initial stacks for the crash enumeration; handle 1 runs the call, handle 2 continues afterwards"""
     kinds = [
-        [{"op": "add"}], [{"op": "addition"}], [{"op": "compactall"}], [{"op": "compactrange", "first": 0, "last": 1}],
-        [{"op": "compactrange", "first": 1, "last": 2}], [{"op": "clean"}], [{"op": "reopen"}], [{"op": "autoadd"}],
-        [{"op": "compactall", "expiry": {"Time": 0, "Min": 2, "Max": 0}}],
+        ("add", [{"op": "add"}]), ("addition", [{"op": "addition"}]), ("compactall", [{"op": "compactall"}]),
+        ("compactrange01", [{"op": "compactrange", "first": 0, "last": 1}]), ("compactrange12", [{"op": "compactrange", "first": 1, "last": 2}]),
+        ("clean", [{"op": "clean"}]), ("reopen", [{"op": "reopen"}]), ("autoadd", [{"op": "autoadd"}]),
+        ("expiry", [{"op": "compactall", "expiry": {"Time": 0, "Min": 2, "Max": 0}}]), ("empty", [{"op": "empty"}]),
     ]
-    runs = []
+    scen = []
     i = 0
-    for kind in kinds:
+    for name, kind in kinds:
         for initn in (0, 1, 2, 3, 4):
-            for k in range(1, 26):
-                tg = P.TxnGen(random.Random(i * 31 + 7))
-                init = [tg.add() for _ in range(initn)]
-                prog = []
-                auto = False
-                for c in kind:
-                    if c["op"] == "add":
-                        prog.append(tg.add())
-                    elif c["op"] == "autoadd":
-                        prog.append(tg.add())
-                        auto = True
-                    elif c["op"] == "addition":
-                        prog.append(tg.addition())
-                    else:
-                        prog.append(dict(c))
-                follow = [tg.add(), {"op": "compactall"}, tg.add()]
-                runs.append({"id": "k%d" % i, "hash": "sha1" if i % 2 else "s256", "nh": 2, "init": init, "preopen": True,
-                             "progs": {"1": prog, "2": follow}, "auto": {"1": auto}, "sched": [1] * 40,
-                             "crash": [{"h": 1, "before": k + 1}], "tail": "seq", "seed": i})
-                i += 1
-    rng.shuffle(runs)
-    return runs[:n] if n < len(runs) else runs
+            tg = P.TxnGen(random.Random(i * 31 + 7))
+            init = [tg.add() for _ in range(initn)]
+            prog, auto = [], False
+            for c in kind:
+                if c["op"] == "add":
+                    prog.append(tg.add())
+                elif c["op"] == "autoadd":
+                    prog.append(tg.add())
+                    auto = True
+                elif c["op"] == "addition":
+                    prog.append(tg.addition())
+                elif c["op"] == "empty":
+                    prog.append(tg.empty())
+                else:
+                    prog.append(dict(c))
+            follow = [tg.add(), {"op": "compactall"}, tg.add()]
+            scen.append({"id": "k%s-%d" % (name, initn), "hash": "sha1" if i % 2 else "s256", "nh": 2, "init": init, "preopen": True,
+                         "progs": {"1": prog, "2": follow}, "auto": {"1": auto}, "sched": [1] * 200, "tail": "seq", "seed": i})
+            i += 1
+    return scen
+
+
+def crash_runs(drv, sc, rng, n):
+    """Crash enumeration, complete: a dry run of every scenario tells how many filesystem calls (gates) the call of
+    handle 1 makes; then one run per scenario and per k in 1..gates: handle 1 is killed before its k-th gate, handle 2
+    continues (Add, compaction, Add), then a fresh open.  Returns (runs, total number of crash points, complete?)."""
+    scen = crash_scenarios()
+    dry = P.run_driver(drv, scen, sc)
+    runs = []
+    for s, o in zip(scen, dry):
+        gates = sum(1 for h in o["sched"] if h == 1)
+        for k in range(1, gates + 1):
+            r = dict(s)
+            r["id"] = "%s-c%d" % (s["id"], k)
+            r["crash"] = [{"h": 1, "before": k}]
+            runs.append(r)
+    total = len(runs)
+    if n < total:
+        rng.shuffle(runs)
+        return runs[:n], total, False
+    return runs, total, True
 
 
 def replay(pid, path):
